@@ -503,6 +503,15 @@ func (fx *FnExec) applyContract(fr *frame, st *State, fc *FuncContract, callee *
 		g := fx.evalCallClause(pre, rq, "requires of "+key)
 		fx.obligeNamed(fr, st, fmt.Sprintf("call%d:%s/requires/%d", fx.callSeq, shortKey(key), k+1), "requires", pos, g, "precondition of "+key+": "+rq.Src)
 	}
+	// fresh(x) in the callee's postconditions: the allocations are made before the modified locations are forgotten
+	// and before the result values are introduced, so that "a value appearing now is no younger than now" stays
+	// consistent with them (x may be a result or a location the callee modifies)
+	fx.pendingFresh = nil
+	for _, en := range append(append([]Clause{}, fc.Ensures...), fc.Proves...) {
+		for k := countCalls(en.Expr, "fresh"); k > 0; k-- {
+			fx.pendingFresh = append(fx.pendingFresh, fx.newRef("fresh"))
+		}
+	}
 	old := st.clone()
 	if !fc.Pure {
 		if fx.pureMode && !fc.ModAll && len(fc.Modifies) > 0 && fx.modifiesOnlyFresh(fc, st, mkEnv) {
@@ -535,14 +544,6 @@ func (fx *FnExec) applyContract(fr *frame, st *State, fc *FuncContract, callee *
 	hasRes := rt != nil
 	if tt, ok := rt.(*types.Tuple); ok && tt.Len() == 0 {
 		hasRes = false
-	}
-	// fresh(x) in the callee's postconditions: the allocations are made before the result values are
-	// introduced, so that "a value appearing now is no younger than now" stays consistent with them
-	fx.pendingFresh = nil
-	for _, en := range append(append([]Clause{}, fc.Ensures...), fc.Proves...) {
-		for k := countCalls(en.Expr, "fresh"); k > 0; k-- {
-			fx.pendingFresh = append(fx.pendingFresh, fx.newRef("fresh"))
-		}
 	}
 	if hasRes {
 		res = fx.freshVal(rt, "ret."+shortKey(key))
